@@ -703,10 +703,12 @@ class Engine:
         n = len([x for x in os.listdir(d) if x.endswith(".json")])
         path = os.path.join(d, "%d.json" % n)
         c = f["case"]
-        ib = self.run_impl([c]).get(c.id, [])
-        mb = self.run_model([c]).get(c.id, [])
+        # a grouped case is replayed after the cases that ran before it in the same process
+        pre = [x for x in c.meta.get("before", [])]
+        ib = self.run_impl(pre + [c]).get(c.id, [])
+        mb = self.run_model(pre + [c]).get(c.id, [])
         json.dump(dict(property=self.pid, kind=kind, reason=f["reason"], detail=f.get("detail"),
-                       case=c.text(), implementation=[l[:2000] for l in ib], model=[l[:2000] for l in mb],
+                       case="".join(x.text() for x in pre) + c.text(), implementation=[l[:2000] for l in ib], model=[l[:2000] for l in mb],
                        seed=self.seed, tier=self.tier,
                        broken=self.P.get("components", []), theorems=self.audit_info.get("theorems", [])),
                   open(path, "w"), indent=1)
@@ -1126,7 +1128,10 @@ def extra_C17(eng, cases):
                            stderr=subprocess.PIPE, env=env, timeout=1200)
         out = p.stdout.decode()
         if "identical 1" not in out:
-            eng.fail(cases[0], "outputs differ between %d concurrently running threads" % n)
+            # the replay holds the whole batch: interference between muxers of one process needs its neighbours
+            last = cases[-1].clone()
+            last.meta["before"] = list(cases[:-1])
+            eng.fail(last, "outputs differ between %d concurrently running threads" % n)
         blocks = parse_blocks(out)
         for c in cases:
             if blocks.get(c.id) != eng.iblocks.get(c.id):
@@ -2133,3 +2138,12 @@ PROPS["C09"]["fams"] = PROPS["C09"]["fams"] + [("fam_jitter_cancel", 45, 600)]
 # the whole moov / media segment is now re-derived from the source: the stage also backs the table properties
 for _p in ("C03", "C09", "C15"):
     PROPS[_p]["translated"] = True
+
+# wave 15: process-history independence.  Groups of closely related muxers run one after the other in ONE
+# process (configurations that differ in one attribute, a failed finish before a good one, ...): whatever an
+# earlier muxer leaves behind in the process (a static cache, a thread-local scratch buffer) shows as a
+# difference between the crate and the (pure) model on the later one.
+for _p in ("C01", "C02", "C03", "C04", "C05", "C06", "C07", "C08", "C09", "C13", "C14", "C15", "C16", "C17", "C18", "C19"):
+    PROPS[_p]["fams"] = PROPS[_p]["fams"] + [("fam_neighbours", 1, 3)]
+for _p in ("C10", "C11", "C12", "C07", "C19", "C02"):
+    PROPS[_p]["fams"] = PROPS[_p]["fams"] + [("fam_frag_neighbours", 1, 3)]
